@@ -24,20 +24,20 @@ type ObResult struct {
 }
 
 type FuncResult struct {
-	Fn        string
-	Key       string
-	Obs       []*ObResult
-	Notes     []string
-	GenError  string
-	Dropped   []string
-	Kept      []string
-	PreSat    string
-	Seconds   float64
-	Assumed   bool
-	Callees   []string
-	Inputs    []inputDesc
-	vc        *VC
-	Iter      int
+	Fn       string
+	Key      string
+	Obs      []*ObResult
+	Notes    []string
+	GenError string
+	Dropped  []string
+	Kept     []string
+	PreSat   string
+	Seconds  float64
+	Assumed  bool
+	Callees  []string
+	Inputs   []inputDesc
+	vc       *VC
+	Iter     int
 }
 
 type SolverCfg struct {
